@@ -424,6 +424,8 @@ func genC09(e *emitter, tier string, seed uint64) {
 			hx = hex.EncodeToString(genTx(r, r.n(3), r.n(3), false).Bytes())
 			if r.chance(20) {
 				hx = hx[:len(hx)/2*2-2]
+			} else if r.chance(25) {
+				hx += []string{"00", "ff", "0000000000", "01000000"}[r.n(4)] // a complete transaction followed by more bytes
 			}
 			if r.chance(10) {
 				hx = "BAD"
